@@ -161,7 +161,7 @@ package patch
 //@   ensures returns_placeholder: result1 == nil ==> result0 == trampoline
 //@   ensures pages_rx: perm_exec_kept()
 
-//@ trusted func fixOriginFuncToTrampoline
+//@ func fixOriginFuncToTrampoline
 //@   props C03 C02 C13 C14
 //@   requires placement: tramp_ok(origin, trampoline) && jumpInstSize == 13
 //@   assigns textmem[trampoline : trampoline + uintptr(bytecode.func_extent(trampoline))], perm, rw_wheld[addr(memory.memoryAccessLock)], rw_rheld[addr(memory.memoryAccessLock)]
